@@ -1309,8 +1309,8 @@ char* string_print_formatted (char *format_str, int argc, svalue_t * argv) {
               else if (finfo & INFO_T_INT)
                 {		/* one of the integer
                                  * types */
-                  char cheat[8];
-                  char temp[100];
+                  char cheat[16];	/* '%', sign flag, '.', up to 10 digits of precision, type, NUL */
+                  char temp[512];	/* "%f" of DBL_MAX needs 317 bytes; longer output is truncated */
 
                   *cheat = '%';
                   i = 1;
@@ -1363,10 +1363,10 @@ char* string_print_formatted (char *format_str, int argc, svalue_t * argv) {
 
                   if (carg->type == T_REAL)
                     {
-                      sprintf (temp, cheat, carg->u.real);
+                      snprintf (temp, sizeof (temp), cheat, carg->u.real);
                     }
                   else
-                    sprintf (temp, cheat, carg->u.number);
+                    snprintf (temp, sizeof (temp), cheat, carg->u.number);
                   {
                     int tmpl = (int)strlen (temp);
 
